@@ -873,8 +873,48 @@ def unit_fault(ctx, name, res):
         ctx.violations.append({'clause': 'fails memory-safety-or-crash', 'replay': path, 'nofail': False})
 
 
+def server_spf(ctx):
+    """the evaluation as the server uses it: the result recorded for a transaction (the Received-SPF line of the queued
+    message) is the RFC 7208 result for the sender's domain, whether or not that domain has MX or address records
+    (seeded change c11-m10 recorded None without evaluating when the MX lookup said 'no such host')"""
+    import session, smtpworld as W
+    b = session.build_qsmtpd(ctx)
+    if not b:
+        return
+    recs = [(b'v=spf1 -all', b'Fail'), (b'v=spf1 +all', b'Pass'), (b'v=spf1 ?all', b'Neutral'), (b'v=spf1 ~all', b'SoftFail'),
+            (b'v=spf1 ip4:192.0.2.0/24 -all', b'Pass'), (b'v=spf1 ip4:198.51.100.0/24 -all', b'Fail'), (b'v=spf1 ip4:192.0.2.24 ~all', b'Pass')]
+    scs, meta, fails = [], [], []
+    for rec, want in recs:
+        for shape in ('parked', 'hosted', 'mx-only'):
+            dom = '%s.spf.example' % shape
+            zone = list(W.ZONE) + ['TXT %s %s' % (dom, rec.hex())]
+            if shape == 'hosted':
+                zone.append('A %s 192.0.2.50' % dom)
+            elif shape == 'mx-only':
+                zone += ['MX %s 10:mail.%s' % (dom, dom), 'A mail.%s 192.0.2.51' % dom]
+            sc = W.base_scenario()
+            sc.zone = zone
+            sc.items = session.lockstep([b'EHLO client.example\r\n', b'MAIL FROM:<s@%s>\r\n' % dom.encode(), b'RCPT TO:<alice@example.org>\r\n',
+                                         b'DATA\r\n']) + [('S', W.MSG_OK), ('W',), ('S', b'QUIT\r\n'), ('W',)]
+            scs.append(sc); meta.append(('server-spf %s %s' % (shape, rec.decode()), want))
+    for (case, want), r in zip(meta, session.run_sessions(ctx, b, scs)):
+        ctx.count('server-spf-sessions')
+        if r.fault:
+            fails.append((case, 'session', 'fails memory-safety-or-crash: ' + r.fault[:150])); continue
+        msgs = [m for m, e in r.handoffs if e]
+        if not msgs:
+            continue
+        line = [l for l in msgs[0].split(b'\n') if l.startswith(b'Received-SPF:')]
+        got = line[0].split(b' ')[1] if line else b'(no Received-SPF line)'
+        ctx.count('server-spf-result:' + got.decode('latin1'))
+        if got != want:
+            fails.append((case, 'recorded %s' % got.decode('latin1'), 'fails rfc-result rfc=%s (the result the server records for the transaction)' % want.decode()))
+    vlib.handle_results(ctx, 'server-spf', 'Received-SPF result of the whole server vs RFC 7208', [], fails)
+
+
 def run(ctx):
     vlib.lean_prepare(ctx, REQUIRED)
+    server_spf(ctx)
     h = vlib.build_harness(ctx, 'h_spf')
     if h:
         rng = ctx.rng
